@@ -49,7 +49,7 @@ func (P) Engine() string { return "E1+E2" }
 func (P) Describe() harness.Description {
 	return harness.Description{
 		MustHit: []string{"blocked_by_associated_rule", "blocked_by_standalone_window", "rejected_later_in_chain", "concurrent_mixed_outcomes", "tick_lands_on_boundary"},
-		Level: "exploration",
+		Level:   "exploration",
 		Rule: "case = (global statistic geometry, 1-3 resources, 1-3 reject-mode flow rules per resource with thresholds {0, fractional, small, large}, StatIntervalInMs in {0, default, reusable views, standalone windows}, associated-resource rules, optional isolation rule later in the chain; " +
 			"20-80 requests with batches, held or exited, ticks biased to bucket/cycle boundaries and idle gaps). E1: every decision, TriggeredRule and TriggeredValue must equal the reference (admit iff for every rule in order W+b<=T). " +
 			"E2 (25% of runs): k=2-4 callers interleaved at every atomic access between rule check and statistic record; admitted tokens certainly inside any aligned window <= T+(k-1)*max batch. " +
